@@ -70,6 +70,7 @@ class UnitResult:
         self.dropped = []
         self.retries = 0
         self.gen_stats = None
+        self.auto_resolved = []
 
     def to_json(self):
         return {k: getattr(self, k) for k in (
@@ -83,6 +84,7 @@ class UnitResult:
             "per_function_smt_ms": {k: v["time_ms"] for k, v in self.verus_functions.items()},
             "failures": self.failures,
             "generator_stats": self.gen_stats,
+            "auto_resolved_items": self.auto_resolved,
         }
 
 
@@ -124,6 +126,36 @@ def scan_trusted(lines):
                         break
                 out.append("%s %s (%s)" % (tag, name, _origin_str(l.origin)))
     return sorted(set(out))
+
+
+def _resolve_missing(vr, infos, extra):
+    """names rustc could not find -> (src, selector) of same-named items in the files already under extraction"""
+    missing = set()
+    for d in vr.diags:
+        m = re.search(r"cannot find (?:value|function|type|struct, variant or union type) `(\w+)` in this scope", d.message)
+        if m:
+            missing.add(m.group(1))
+    found = []
+    srcs = sorted({i["src"] for i in infos if not i["src"].startswith(("expand", "<"))})
+    for ident in sorted(missing):
+        hit = None
+        for src in srcs:
+            try:
+                text = assemble.read_src(src)
+            except assemble.Undecided:
+                continue
+            for kind in ("const", "static", "fn", "struct", "enum", "type"):
+                try:
+                    assemble.rustlex.find_item(text, "%s:%s" % (kind, ident))
+                    hit = (src, "%s:%s" % (kind, ident))
+                    break
+                except KeyError:
+                    continue
+            if hit:
+                break
+        if hit and hit not in extra:
+            found.append(hit)
+    return found
 
 
 def run_unit(name, template, rlimit=30, canaries=True, threads=None, generator=None, known_clauses=()):
@@ -174,6 +206,37 @@ def run_unit(name, template, rlimit=30, canaries=True, threads=None, generator=N
         can_f = {v: ex.submit(verus.run, p, rlimit, None, threads, 900, 0) for v, (p, _) in can_paths.items()}
         vr = main_f.result()
         cres = {v: f.result() for v, f in can_f.items()}
+
+    # items the real code newly references (a helper const / fn added next to the functions under contract) are
+    # pulled in verbatim, without contract, instead of giving up on the unit
+    extra = []
+    for _ in range(3):
+        if vr.status != "undecided":
+            break
+        new = _resolve_missing(vr, infos, extra)
+        if not new:
+            break
+        extra += new
+        try:
+            lines, infos = assemble.assemble(tpath, extra_items=extra)
+        except assemble.Undecided as e:
+            break
+        res.functions = infos
+        open(gen, "w").write("\n".join(l.text for l in lines) + "\n")
+        vr = verus.run(gen, rlimit, None, threads)
+    res.auto_resolved = ["%s %s" % e for e in extra]
+    if extra:
+        # the canary variants need the same extra items
+        for v in list(can_paths):
+            try:
+                cl, _ci = assemble.assemble(tpath, canary=v, extra_items=extra)
+            except assemble.Undecided:
+                continue
+            cp = can_paths[v][0]
+            open(cp, "w").write("\n".join(l.text for l in cl) + "\n")
+            can_paths[v] = (cp, cl)
+            expected[v] = len([l for l in cl if "// CANARY " in l.text])
+            cres[v] = verus.run(cp, rlimit, None, threads, 900, 0)
 
     # A proof found under any solver seed is a proof: re-run failing units with other seeds and keep
     # only the obligations that fail every time (guards against solver instability, never hides a
